@@ -60,11 +60,13 @@ int main(int argc, char **argv) {
         if (k == seq || k == 0) {
             if (!strcmp(mode, "exit128")) { fprintf(stderr, "fatal: not a git repository (or any of the parent directories): .git\n"); return 128; }
             if (!strcmp(mode, "exit1")) { fprintf(stderr, "error: \xf0\x9f\x92\xa5 injected failure \xff\xfe garbage\n"); return 1; }
-            if (!strcmp(mode, "exit128-long")) {
-                /* a long diagnostic as a localised git prints it: far more than 200 bytes, multi-byte characters at every byte offset modulo 3 */
-                fprintf(stderr, "fatal: ");
-                for (int j = 0; j < 40; j++) fprintf(stderr, "%s\xe3\x83\xaa\xe3\x83\x9d\xe3\x82\xb8\xe3\x83\x88\xe3\x83\xaa", (j % 3 == 0) ? "x" : (j % 3 == 1) ? "yz" : "");
-                fprintf(stderr, "\n\xc3\xa9\xc3\xa9\xc3\xa9 \xf0\x9f\x98\x80 d\xc3\xa9p\xc3\xb4t introuvable\n");
+            if (!strncmp(mode, "exit128-long", 12)) {
+                /* a long diagnostic as a localised git prints it: 0, 1 or 2 ASCII bytes ("exit128-long0/1/2"), then only three-byte characters - whatever byte
+                   offset a consumer cuts at, one of the three variants has it inside a character */
+                int pad = mode[12] ? mode[12] - '0' : 0;
+                for (int j = 0; j < pad; j++) fputc('f', stderr);
+                for (int j = 0; j < 400; j++) fputs("\xe3\x83\xaa", stderr);
+                fputc('\n', stderr);
                 return 128;
             }
             if (!strcmp(mode, "exit1-silent")) { return 1; }
